@@ -429,6 +429,10 @@ def grid_cases():
                 cases.append({"fam": "signer", "keys": [{"t": t, "n": 0}], "holders": [h],
                               "ops": [{"op": "sign", "h": 0, "sub": "alice", "attrs": {}, "outputs": {}, "ov": None,
                                        "renders": {}}, {"op": "jwks"}]})
+    # what the key store says about every key kind the Go standard library can generate: support and algorithm
+    kinds8 = types + ["rsa1024", "p224"]
+    cases.append({"fam": "signer", "keys": [{"t": t, "n": 0} for t in kinds8], "holders": [],
+                  "ops": [{"op": "alg", "k": k} for k in range(len(kinds8))]})
     kinds = ["evil", 1, None, {"sub": "nested"}, [1, 2], True, 1.5, ""]
     store = {"blocks": [{"t": "key", "k": 0, "fmt": "pkcs8", "xkid": "grid"}]}
     for mask in range(64):
